@@ -95,6 +95,23 @@ KEPT = {
     "bound_this": ("h = (function(){ return this.v }).bind({v: %(x)d})",
                    "(function(){ return this.v }).bind({v: %(x)d})()"),
 }
+# text mode "same" (C12!TextModes): ONE source text per kind of binding, used by the making program and by every later
+# program of the history.  The value bound is read from the host-set global __x; __k says what this run does with the
+# binding: 1 = keep a closure over it in h, 0 = nothing, 2 = nothing and throw afterwards.  One binding site per text.
+KEPT_SAME = {
+    "catch": "try { throw __x } catch (e) { if (__k === 1) { h = function(){ return e } } }",
+    "catch_in_function": "(function(){ try { throw __x } catch (e) { if (__k === 1) { h = function(){ return e } } } })()",
+    "function_own_name": "(function(){ var v = __x; var m = function me(q){ return q ? v : me(1) }; "
+                         "if (__k === 1) { h = m } else { m(0) } })()",
+    "arguments": "(function(){ var a = arguments; if (__k === 1) { h = function(){ return a[0] } } })(__x)",
+    "local": "(function(){ var v = __x; if (__k === 1) { h = function(){ return v } } })()",
+    "parameter": "(function(v){ if (__k === 1) { h = function(){ return v } } })(__x)",
+    "bound_argument": "(function(){ var b = (function(v){ return v }).bind(null, __x); "
+                      "if (__k === 1) { h = b } else { b() } })()",
+    "bound_this": "(function(){ var b = (function(){ return this.v }).bind({v: __x}); "
+                  "if (__k === 1) { h = b } else { b() } })()",
+}
+KEPT_SAME_TAIL = "; if (__k === 2) { throw new Error(1) }"
 ROUTES = {"top": "%s", "ieval": '(1,eval)("%s")', "newfn": 'new Function("%s")()'}
 
 # family V: carriers (the value kept in h) and uses (how a later eval hands it the callback CB)
@@ -184,6 +201,9 @@ def render_carry(kind, form, x, n=0):
 def render_kept(kind, form, x):
     """family K: the program of one event."""
     mk, ot = KEPT[form["kb"]]
+    if form.get("tx") == "same":
+        # the same text whatever the kind of event and the value (replay sets __x and __k before it runs)
+        return "var h; " + ROUTES[form["mk"] if kind == "kb_make" else form["ot"]] % (KEPT_SAME[form["kb"]] + KEPT_SAME_TAIL)
     if kind == "kb_make":
         return "var h; " + ROUTES[form["mk"]] % (mk % {"x": x})
     body = ot % {"x": x}
@@ -286,6 +306,9 @@ def new_ctx(api, lim, reader=None):
     # exposed callables for the re-entrant snippet: evaluate on the same context / report the current-VM pointer
     ctx.set("__re", lambda n: (ctx.eval("var g = %d" % int(n)), None)[1])
     ctx.set("__ptr", lambda: 0 if ctx._current_vm is None else 1)
+    # family K, text mode "same": the parameters of the one text (set by the host before the event)
+    ctx.set("__x", 0)
+    ctx.set("__k", 0)
     if reader is not None:
         src, setup, undo = reader
         if src not in _TARGET_FN:
@@ -382,6 +405,7 @@ def replay(case, api):
     -> {tid, nc, tj, cls, ev: [{c,k,x,o,r,w,pr}]}"""
     nc = case["nc"]
     tj, late, fam = case.get("tj", 0), case.get("late", 0), case.get("fam", "")
+    bb = case.get("bb", 0)      # back to back: no evaluation between the events, one probe after the last
     target = target_of(case["target"]) if case.get("target") else None
     form = case.get("form")
     reader = reader_of(fam, target, case.get("target")) if fam in ("inv", "text", "kept") else None
@@ -411,6 +435,9 @@ def replay(case, api):
                 src = render_text(k, case["target"], n, target)
             elif k.startswith("kb_"):
                 src = render_kept(k, form, n)
+                if form.get("tx") == "same":
+                    ctx.set("__x", n)
+                    ctx.set("__k", {"kb_make": 1, "kb_other": 0, "kb_other_err": 2}[k])
             elif k.startswith("cv_"):
                 src = render_carry(k, form, n, nwork)
             else:
@@ -418,9 +445,12 @@ def replay(case, api):
                 src = t % n if "%d" in t else t
             out = api.run(lambda: ctx.eval(src), tick=TICK, cap=50000, wall=60.0, keep_clock=True)
         r = cls(out.get("pv")) if out["o"] == "value" else -1
-        # the pointer of every context is read first: the probe itself evaluates, which would clear a stale pointer
         ctxs = [cx if cx is not None else new_ctx(api, case["limits"][j], reader) for j, cx in enumerate(ctxs)]
+        if bb and n < len(case["h"]):
+            evs.append({"c": c, "k": k, "x": n, "o": out["o"], "r": r, "w": out.get("steps", 0), "np": 1, "pr": []})
+            continue
+        # the pointer of every context is read first: the probe itself evaluates, which would clear a stale pointer
         ptrs = [1 if cx._current_vm is None else 0 for cx, _ in ctxs]
-        evs.append({"c": c, "k": k, "x": n, "o": out["o"], "r": r, "w": out.get("steps", 0),
+        evs.append({"c": c, "k": k, "x": n, "o": out["o"], "r": r, "w": out.get("steps", 0), "np": 0,
                     "pr": [probe(api, cx, base, p, names, inv=reader is not None) for (cx, base), p in zip(ctxs, ptrs)]})
     return {"id": case["id"], "tid": case["id"], "nc": nc, "tj": tj, "cls": case.get("cls", ""), "ev": evs}
